@@ -33,7 +33,7 @@ CheckerFam ==
   [kh \in KH |-> { s \o <<VerifyOp(TokFor(kh[1], kh[2], sg, sh))>> : s \in CkWithCb(kh[1]), sg \in SigsFor(kh[1], kh[2]), sh \in ShapesFor(kh[2]) }]
 NoKeyScripts ==
   { <<CNewOp, VerifyOp(TokFor(DummyKey, h, sg, sh))>> :
-      h \in {"none", "None", "NONE", "HS256", NONE, "#null", "#int", "#bool", "#arr", "#obj", "#real", "none ", "", "nonee", "non", "none#0x", "none#0HS256", "n"},
+      h \in RealAlgs \cup {"none", "None", "NONE", NONE, "#null", "#int", "#bool", "#arr", "#obj", "#real", "none ", "", "nonee", "non", "none#0x", "none#0HS256", "n"},
       sg \in {EmptySig, Sig("valid", "HS256", DummyKey)}, sh \in Shapes }
   \cup { <<CNewOp, CSetKeyOp("HS256", -1), VerifyOp(TokFor(DummyKey, "none", EmptySig, "3seg"))>> }
 
@@ -69,5 +69,13 @@ CrossFam == [k \in CrossKeys |->
                \cup { <<OpsOp(p), LoadOp(<<k>>), BNewOp, BSetCbOp(<<CbKey(0), CbAlg(a)>>), GenerateOp(0)>> : a \in RealAlgs, p \in {"openssl", "gnutls"} }]
 
 SomeUnsignedAccepted == ~(obs.k = "Verify" /\ obs.ref = "accept" /\ obs.pt.sigEmpty)
+\* stage 'faults': every allocation request made inside jwt_checker_verify fails once on keyed checkers (with and
+\* without callback) that are handed unsigned and stripped tokens
+FaultScripts ==
+  UNION { { s \o <<VerifyOp(TokFor(k, "none", EmptySig, "3seg")), VerifyOp(TokFor(k, MatchAlg(k), EmptySig, "3seg")), VerifyOp(TokFor(k, "none", EmptySig, "2seg"))>> :
+              s \in { <<LoadOp(<<k>>), CNewOp, CSetKeyOp(MatchAlg(k), 0)>>, <<LoadOp(<<k>>), CNewOp, CSetKeyOp(MatchAlg(k), 0), CSetCbOp(<<>>)>>,
+                       <<LoadOp(<<k>>), CNewOp, CSetCbOp(<<CbKey(0), CbAlg(MatchAlg(k))>>)>> } }
+          : k \in {OctKey(32, "a", NONE, NONE), AsymKey("rsa2048a", 0, NONE, NONE), AsymKey("p256a", 0, NONE, NONE)} }
+MCSpecFault == ISpecP(script \in FaultScripts)
 MCSpec == ISpecP(InFam(CheckerFam) \/ script \in NoKeyScripts \/ script \in BuilderScripts \/ InFam(LifeFamB) \/ InFam(LifeFamC) \/ InFam(CrossFam))
 =============================================================================
